@@ -90,6 +90,15 @@ class Outcome:
         return 'Outcome(%s, %r, %s)' % (self.kind, self.value, self.conds)
 
 
+def _copy_containers(v):
+    """fresh list / dict objects (recursively) so that in-place updates made on one path are not seen by the next"""
+    if type(v) is list:
+        return [_copy_containers(x) for x in v]
+    if type(v) is dict:
+        return {k: _copy_containers(x) for k, x in v.items()}
+    return v
+
+
 def is_num(v):
     return isinstance(v, (int, float, Fraction)) and not isinstance(v, bool)
 
@@ -124,7 +133,7 @@ class PE:
             self.augs = []
             self.user = {}
             try:
-                kind, val, env = self._run(func, dict(args or {}), body, 0, outer_env)
+                kind, val, env = self._run(func, {k: _copy_containers(v) for k, v in (args or {}).items()}, body, 0, outer_env)
                 out.append(Outcome(kind, val, list(self.conds), list(self.stores), list(self.calls), env, dict(self.mem)))
                 out[-1].trace = list(self.trace)
                 out[-1].subloads, out[-1].substores = list(self.subloads), list(self.substores)
@@ -338,6 +347,24 @@ class PE:
                     new = self.update_seq(base, idx, v)
                     if new is not None:
                         env[t.value.id] = new
+                        return
+                else:
+                    # a known dict / list reached through a name or an attribute: the object itself is updated (heap semantics)
+                    try:
+                        held = self.expr(t.value, env, func, depth) if isinstance(t.value, (ast.Name, ast.Attribute, ast.Subscript)) else None
+                    except Incomplete:
+                        held = None
+                    if isinstance(idx, P) and idx.is_const() and idx.const_value().denominator == 1:
+                        idx = int(idx.const_value())
+                    if isinstance(held, dict) and isinstance(idx, (str, int)) and not isinstance(idx, bool):
+                        held[idx] = v
+                        self.substores.append((self.loc_text(t.value, env, func, depth), idx, v, stmt))
+                        self.stores.append((self.loc_text(t, env, func, depth), v, stmt))
+                        return
+                    if isinstance(held, list) and isinstance(idx, int) and not isinstance(idx, bool) and -len(held) <= idx < len(held):
+                        held[idx] = v
+                        self.substores.append((self.loc_text(t.value, env, func, depth), idx, v, stmt))
+                        self.stores.append((self.loc_text(t, env, func, depth), v, stmt))
                         return
                 self.substores.append((self.loc_text(t.value, env, func, depth), idx, v, stmt))
             key = self.loc_text(t, env, func, depth)
@@ -814,6 +841,41 @@ class PE:
                 if isinstance(args[0], (list, tuple)):
                     env[recv_node.id] = type(env[recv_node.id])(list(env[recv_node.id]) + list(args[0]))
                     return None
+            if m in ('append', 'extend', 'setdefault', 'update', 'pop', 'insert', 'clear') and not (isinstance(recv_node, ast.Name) and (recv_node.id in ('np', 'math') or isinstance(env.get(recv_node.id), list))):
+                # container methods on a known dict / list reached through an attribute, a subscript or a name: the object itself is updated
+                try:
+                    held = self.expr(recv_node, env, func, depth) if isinstance(recv_node, (ast.Name, ast.Attribute, ast.Subscript)) else None
+                except Incomplete:
+                    held = None
+                if isinstance(held, list):
+                    if m == 'append' and len(args) == 1:
+                        held.append(args[0])
+                        return None
+                    if m == 'extend' and len(args) == 1 and isinstance(args[0], (list, tuple)):
+                        held.extend(args[0])
+                        return None
+                    if m == 'insert' and len(args) == 2 and isinstance(args[0], int):
+                        held.insert(args[0], args[1])
+                        return None
+                    if m == 'pop' and len(args) <= 1 and held and all(isinstance(a, int) for a in args):
+                        return held.pop(*args)
+                    if m == 'clear' and not args:
+                        del held[:]
+                        return None
+                if isinstance(held, dict):
+                    hashable = lambda k: isinstance(k, (str, int)) and not isinstance(k, bool)
+                    if m == 'setdefault' and 1 <= len(args) <= 2 and hashable(args[0]):
+                        return held.setdefault(args[0], args[1] if len(args) == 2 else None)
+                    if m == 'pop' and 1 <= len(args) <= 2 and hashable(args[0]):
+                        if args[0] in held or len(args) == 2:
+                            return held.pop(*args)
+                        raise Raised('KeyError(%r)' % (args[0],))
+                    if m == 'update' and len(args) == 1 and isinstance(args[0], dict) and not kw:
+                        held.update(args[0])
+                        return None
+                    if m == 'clear' and not args:
+                        held.clear()
+                        return None
             if m == 'index' and len(args) == 1 and isinstance(args[0], P) and not (isinstance(recv_node, ast.Name) and recv_node.id in ('np', 'math')):
                 recv = self.expr(recv_node, env, func, depth)
                 if isinstance(recv, (list, tuple)) and all(isinstance(x, P) for x in recv):
